@@ -42,9 +42,51 @@ func c14LogStr() string {
 	return strings.Join(c14Log, ".")
 }
 
+// How an evaluation error of an embedded expression shows up in the result is learnt from the real code by
+// one probe ("{{1+}}"), not hard-coded: the marker put in front of the error text ("#") and the name given to
+// the parsed unit ("String interpolation: <code>"), which is part of the error text. A harmless rename of
+// either must not alarm; what the property fixes is that the error text of THAT expression stands there.
+var (
+	c14Marker     = "#"
+	c14UnitPrefix = "String interpolation: "
+	c14UnitSuffix = ""
+	c14Learnt     sync.Once
+)
+
+func c14Learn() {
+	c14Learnt.Do(func() {
+		defer func() { recover() }()
+		const code = "1+"
+		real, err := evalProgram(`"{{`+code+`}}"`, c14Scope(), &memLog{})
+		rs, ok := real.(string)
+		if err != nil || !ok {
+			return
+		}
+		_, aerr := evalProgramNamed("\x01", code, c14Scope().NewChild("x"), &memLog{})
+		if aerr == nil {
+			return
+		}
+		parts := strings.SplitN(aerr.Error(), "\x01", 2)
+		if len(parts) != 2 || parts[0] == "" {
+			return
+		}
+		i := strings.Index(rs, parts[0])
+		if i < 0 || !strings.HasSuffix(rs, parts[1]) {
+			return
+		}
+		name := rs[i+len(parts[0]) : len(rs)-len(parts[1])]
+		k := strings.LastIndex(name, code)
+		if k < 0 {
+			return
+		}
+		c14Marker, c14UnitPrefix, c14UnitSuffix = rs[:i], name[:k], name[k+len(code):]
+	})
+}
+
 // c14EvalAlone evaluates one expression text the way an embedded expression is
-// defined to be evaluated: parse, validate, evaluate, text of the value or "#"+error.
+// defined to be evaluated: parse, validate, evaluate, text of the value or marker+error.
 func c14EvalAlone(code string) (repl string, lg string) {
+	c14Learn()
 	c14Log = nil
 	defer func() {
 		if e := recover(); e != nil {
@@ -53,11 +95,70 @@ func c14EvalAlone(code string) (repl string, lg string) {
 		}
 	}()
 	// the error text carries the name of the parsed unit; use the name the interpreter uses
-	res, err := evalProgramNamed("String interpolation: "+code, code, c14Scope().NewChild("x"), &memLog{})
+	res, err := evalProgramNamed(c14UnitPrefix+code+c14UnitSuffix, code, c14Scope().NewChild("x"), &memLog{})
 	if err != nil {
-		return "#" + err.Error(), c14LogStr()
+		return c14Marker + err.Error(), c14LogStr()
 	}
 	return fmt.Sprint(res), c14LogStr()
+}
+
+// c14PayloadWith builds a payload whose table holds exactly the given expression texts (the ones the
+// generator wrote into the literal) instead of every text between some "{{" and some later "}}" — for long
+// literals, where the number of such pairs is quadratic. An expression the model decides to evaluate that
+// is not in the table is reported by the model as MISSING (= a disagreement).
+func c14PayloadWith(src string, codes []string) (string, bool) {
+	toks := parser.LexToList("t", src)
+	if len(toks) != 2 || toks[0].ID != parser.TokenSTRING || toks[1].ID != parser.TokenEOF || !toks[0].AllowEscapes {
+		return "", false
+	}
+	var entries []string
+	seen := map[string]bool{}
+	for _, code := range codes {
+		if seen[code] {
+			continue
+		}
+		seen[code] = true
+		repl, lg := c14EvalAlone(code)
+		entries = append(entries, hx(code)+":"+hx(repl)+":"+lg)
+	}
+	return hx(src) + " E " + hx(toks[0].Val) + " " + strings.Join(entries, " "), true
+}
+
+// c14Stateful: the expressions of ONE literal share a scope and run one after the other — a literal whose
+// expressions assign. `v` is a global (0 at the start), `w` is first defined by an expression of the literal
+// (so it lives in the scope the literal's expressions share). Payload: ST <src-hex> <value-hex> <text of
+// the value of an assignment> <text of an undefined variable>; result: <output-hex> <log> v=<final v>.
+func c14StatefulPayload(body string) (string, bool) {
+	src := `"` + body + `"`
+	toks := parser.LexToList("t", src)
+	if len(toks) != 2 || toks[0].ID != parser.TokenSTRING || toks[1].ID != parser.TokenEOF {
+		return "", false
+	}
+	vs := c14Scope()
+	vs.SetValue("v", float64(0))
+	asg, err1 := evalProgramNamed("p", "v := v + 1", vs.NewChild("x"), &memLog{})
+	und, err2 := evalProgramNamed("p", "w", c14Scope().NewChild("x"), &memLog{})
+	if err1 != nil || err2 != nil {
+		return "", false
+	}
+	return "ST " + hx(src) + " " + hx(toks[0].Val) + " " + hx(fmt.Sprint(asg)) + " " + hx(fmt.Sprint(und)), true
+}
+
+func c14RunStateful(payload string) string {
+	f := strings.Split(payload, " ")
+	vs := c14Scope()
+	vs.SetValue("v", float64(0))
+	c14Log = nil
+	res, err := evalProgram(unhx(f[1]), vs, &memLog{})
+	if err != nil {
+		return "ERR " + oneLine(err.Error())
+	}
+	s, ok := res.(string)
+	if !ok {
+		return fmt.Sprintf("NOTSTRING %T", res)
+	}
+	v, _, _ := vs.GetValue("v")
+	return hx(s) + " " + c14LogStr() + " v=" + fmt.Sprint(v)
 }
 
 func c14Payload(src string) (string, bool) {
@@ -159,6 +260,15 @@ func c14RunShared(payload string) string {
 
 var c14Rec func(n int) string
 
+func bitLen(n int) int {
+	b := 0
+	for n > 0 {
+		b++
+		n >>= 1
+	}
+	return b
+}
+
 // c14Lex runs the REAL lexer on the source of a literal: token kinds and, for string tokens, the value and
 // the raw / interpolating flag — what the interpolation stage receives ("escape sequences are interpreted,
 // a raw string is returned untouched").
@@ -183,7 +293,7 @@ func c14Lex(src string) string {
 
 func init() {
 	atoms := []string{"{{", "}}", "{", "}", `\"`, "'", `\n`, "a", "b", "c", "d", "e", "f", "1", "+", " ",
-		"x.cnt(1)", "x.cnt(2)", `\\`, `{`, `}`, "é"}
+		"x.cnt(1)", "x.cnt(2)", `\\`, "\\u007b", "\\u007d", "é"}
 	forms := [][2]string{{`"`, `"`}, {`'`, `'`}, {`r"`, `"`}, {`r'`, `'`}}
 	register("C14", &Prop{
 		Timeout: 2 * time.Second,
@@ -210,7 +320,11 @@ func init() {
 			}
 			// corpus first: the inputs that failed before the repair
 			for _, s := range []string{`"}} {{"`, `"{{a}}"`, `"{{c}}"`, `"{{d}}"`, `"{{x.cnt(1)}}{{a}}{{x.cnt(2)}}"`,
-				`"{{f}}x.cnt(1){{e}}"`, `"{{e}}{{x.cnt(1)}}"`, `r"{{x.cnt(1)}}"`, `"{{x.cnt(1)}}"`, `"{{1+}}{{x.cnt(2)}}"`} {
+				`"{{f}}x.cnt(1){{e}}"`, `"{{e}}{{x.cnt(1)}}"`, `r"{{x.cnt(1)}}"`, `"{{x.cnt(1)}}"`, `"{{1+}}{{x.cnt(2)}}"`,
+				// error texts that carry markers (the operand value is printed in the message) must not be scanned again
+				`"{{1+a}}"`, `"{{a+1}}{{x.cnt(1)}}"`, `"{{raise(d)}}"`, `"{{raise(a, c, f)}}{{x.cnt(2)}}"`, `"{{1+d}}"`,
+				// markers built by escape sequences ARE markers: the lexer unquotes first
+				"\"\\u007b\\u007bb}}\"", "\"\\u007b{b}\\u007d\"", "\"{{b\\x7d\\x7d\""} {
 				p, ok := c14Payload(s)
 				if !ok {
 					panic("corpus literal does not lex: " + s)
@@ -220,7 +334,8 @@ func init() {
 			}
 			// the lexer stage: literal sources (also ones that do not form one string token) through the real
 			// lexer and the lexer model — values of quoted strings after escape processing, raw strings untouched
-			lexAtoms := []string{`\\`, `\"`, `\'`, `"`, `'`, `\n`, `\t`, `\u007b`, `\x41`, `\101`, `\`, "{{", "}}", "a", " ", "é", "\n", "r", "\xff"}
+			lexAtoms := []string{`\\`, `\"`, `\'`, `"`, `'`, `\n`, `\t`, `\u007b`, `\x41`, `\101`, `\`, "{{", "}}", "a", " ", "é", "\n", "r", "\xff",
+				`\a`, `\b`, `\f`, `\r`, `\v`, `\U0000007b`, `\U00110000`, `\ud800`, `\400`, `\x4`, `\u12`, `\q`, `\0`, "7"}
 			lexForms := [][2]string{{`"`, `"`}, {`'`, `'`}, {`r"`, `"`}, {`r'`, `'`}}
 			nLex := 3000
 			if g.Thorough() {
@@ -252,6 +367,72 @@ func init() {
 				}
 				g.Count("kind LEX")
 				g.Emit("LEX " + hx(f[0]+sb.String()+f[1]+tail))
+			}
+			// size scaling: literals with up to 300 expressions / ~8 KB ("replaces EACH {{expr}}": an iteration cap,
+			// a length threshold or a buffer that is reused past some size shows only here). Expression i is
+			// x.cnt(i), so order and "once" are visible in the log; some expressions return marker-laden text or fail.
+			bigKs := []int{6, 7, 8, 9, 10, 15, 16, 17, 31, 32, 33, 63, 64, 65, 100, 127, 128, 129, 200, 255, 256, 257, 300}
+			nBigRandom := 40
+			if g.Thorough() {
+				nBigRandom = 600
+			}
+			for i := 0; i < nBigRandom; i++ {
+				bigKs = append(bigKs, 1+g.R.Intn(300))
+			}
+			bigText := []string{"", "", "<", "é", " ", "x", ">", "}", "lorem ipsum dolor sit amet, consectetur adipiscing", "\\n"}
+			bigOther := []string{"a", "e", "f", "b", "1+", "d", "nope", "1+a"}
+			for _, k := range bigKs {
+				var sb strings.Builder
+				var codes []string
+				for j := 1; j <= k; j++ {
+					sb.WriteString(bigText[g.R.Intn(len(bigText))])
+					code := fmt.Sprintf("x.cnt(%d)", j)
+					if g.R.Intn(9) == 0 {
+						code = bigOther[g.R.Intn(len(bigOther))]
+					}
+					codes = append(codes, code)
+					sb.WriteString("{{" + code + "}}")
+				}
+				sb.WriteString(bigText[g.R.Intn(len(bigText))])
+				if p, ok := c14PayloadWith(`"`+sb.String()+`"`, codes); ok {
+					g.Count("kind BIG")
+					g.Count(fmt.Sprintf("BIG size <= %d bytes", 1<<uint(bitLen(sb.Len()))))
+					g.Emit(p)
+				}
+			}
+			// stateful expressions: the expressions of one literal assign and read (kind ST)
+			stExprs := []string{"v := v + 1", "v", "x.cnt(v)", "w := v", "w"}
+			stText := []string{"<", " ", "é", ""}
+			var stRec func(prefix string, n int)
+			stRec = func(prefix string, n int) {
+				if n > 0 {
+					if p, ok := c14StatefulPayload(prefix); ok {
+						g.Count("kind ST")
+						g.Emit(p)
+					}
+				}
+				if n == 3 {
+					return
+				}
+				for _, e := range stExprs {
+					stRec(prefix+stText[(n+len(e))%len(stText)]+"{{"+e+"}}", n+1)
+				}
+			}
+			stRec("", 0)
+			nST := 300
+			if g.Thorough() {
+				nST = 6000
+			}
+			for i := 0; i < nST; i++ {
+				var sb strings.Builder
+				for k, n := 0, 2+g.R.Intn(10); k < n; k++ {
+					sb.WriteString(stText[g.R.Intn(len(stText))])
+					sb.WriteString("{{" + stExprs[g.R.Intn(len(stExprs))] + "}}")
+				}
+				if p, ok := c14StatefulPayload(sb.String()); ok {
+					g.Count("kind ST")
+					g.Emit(p)
+				}
 			}
 			// re-entrant and concurrent evaluation of ONE literal node (kinds REC and PAR)
 			nRP := 150
@@ -349,6 +530,9 @@ func init() {
 			}
 			if strings.HasPrefix(payload, "REC ") || strings.HasPrefix(payload, "PAR ") {
 				return c14RunShared(payload)
+			}
+			if strings.HasPrefix(payload, "ST ") {
+				return c14RunStateful(payload)
 			}
 			src := unhx(strings.SplitN(payload, " ", 2)[0])
 			c14Log = nil
